@@ -18,9 +18,19 @@ package sub
 //@
 //@ func (*context).matches
 //@   holds c.s.Mutex
+//@   borrows m
+//@   modifies none
+//@   loop 1 invariant forall(k, 0, rangeindex+1, !isprefix(c.subs[k], m.Body))
+//@   ensures result <==> exists(i, 0, len(c.subs), isprefix(c.subs[i], m.Body))
 //@
 //@ func (*context).subscribe
 //@   holds c.s.Mutex
 //@
 //@ func (*context).unsubscribe
 //@   holds c.s.Mutex
+//@   before send:recvQ#1 assert exists(i, 0, len(c.subs), isprefix(c.subs[i], m.Body))
+//@   at call:Free#1 assert !exists(i, 0, len(c.subs), isprefix(c.subs[i], m.Body))
+//@
+//@ func (*pipe).receiver
+//@   at call:Clone#1 assert exists(i, 0, len(c.subs), isprefix(c.subs[i], m.Body))
+//@   at if#2.else assert !exists(i, 0, len(c.subs), isprefix(c.subs[i], m.Body))
